@@ -177,6 +177,7 @@ def idempotent_accumulate(ctx, cr, k):
     every push must be on a path where `slot.iter().any(<equality with the new element>)` over the SAME slot returned false."""
     f = cr.fns[k]
     pushes = []
+    preds = set()
 
     class H(ai.Hooks):
         def call(self, a, st, term, callee, args):
@@ -197,6 +198,8 @@ def idempotent_accumulate(ctx, cr, k):
                 over_slot = "SLOT" in ai.fmt_val(it)
                 clo = a.resolve(st, args[1])
                 pred = closure_is_equality(cr, clo, st, a)
+                if over_slot and pred and clo[0] == "closure":
+                    preds.add(clo[1])
                 sid = "SEEN" if (over_slot and pred) else a.site(st, ":any")
                 return [(("sym", sid), mon)]
             if p == "std::vec::Vec::push":
@@ -217,6 +220,19 @@ def idempotent_accumulate(ctx, cr, k):
     for seen, tr in pushes:
         if seen != ("bool", False):
             return "pushes into the memo slot on a path where no membership test excluded an equal element (seen=%s) [%s]: a repeated clause accumulates duplicates" % (seen, S.trace_str(tr, 5))
+    # ... and the test must not be coarser than identity either: two captured keys are the same element only if they sit at the same path.
+    # The predicate has to compare the elements' paths (whole Path values, or their text) besides their values; comparing a component
+    # such as the location alone merges different keys whenever locations coincide (documents built from serde values are all at 0:0).
+    for ck in sorted(preds):
+        body = cr.fns.get(ck)
+        compared = []
+        for _, t in M.iter_calls(body):
+            if M.norm_path(t["fn"].get("decl", "")) == "std::cmp::PartialEq::eq":
+                ga = t["fn"].get("ga", [])
+                ty = M.Ty(cr, ga[0]).strip_refs() if ga else None
+                compared.append((ty.adt_path() or ty.kind) if ty is not None else "?")
+        if not any(str(c).endswith("path_value::Path") or str(c) in ("std::string::String", "str") for c in compared):
+            return "the membership test compares %s but not the elements' paths: keys at different paths with equal values are merged into one capture" % sorted(set(map(str, compared)))
     return None
 
 
